@@ -136,7 +136,7 @@ def write_evidence(prop, tier, level, coverage, assumptions, wall, violations):
     return p
 
 
-def triage(prop, campaigns, dev=False, max_new=12):
+def triage(prop, campaigns, dev=False, max_new=int(os.environ.get('VERIF_MAX_NEW', '12'))):
     """Group violations by key; split into known (open) and new. New ones are
     shrunk, saved under replays/<prop>/ and replayed 3x. Returns
     (known_hits {key:count}, new [(key, replaypath, detail)], lines to print)."""
